@@ -38,6 +38,9 @@ func TestMain(m *testing.M) {
 	glue.SilenceKlog()
 	pool = gen.NewPool(glue.NewCollectorPoolArgs())
 	if rp := ev.LoadReplay(); rp != nil {
+		if rp.Phase == "registry_consistency" {
+			ev.RunReplay(rp, checkRegistryEntry)
+		}
 		if rp.Phase == "late_registration" {
 			ev.RunReplay(rp, runLate)
 		}
@@ -318,6 +321,9 @@ func genCase(t *rapid.T) Case {
 	switch small := rapid.IntRange(0, 15).Draw(t, "small"); {
 	case small == 0: // templates as wide as real flow exporters send (Antrea: about 60 to 100 fields)
 		n, maxVar = rapid.IntRange(60, 140).Draw(t, "nfw"), 20
+		if rapid.IntRange(0, 3).Draw(t, "huge") == 0 { // and far wider: the field count is a 16-bit number
+			n, maxVar = rapid.IntRange(250, 420).Draw(t, "nfh"), 4
+		}
 	case small > 4:
 		n = rapid.IntRange(1, 6).Draw(t, "nfs")
 	}
